@@ -9,7 +9,7 @@ use nexrad_decode::messages as dm;
 use rayon::prelude::*;
 use serde_json::{json, Value};
 
-pub const SYMBOLS: [&str; 9] = ["status", "vcp", "t15", "t3", "t18", "u200", "t31_empty", "t31_basic", "t31_all"];
+pub const SYMBOLS: [&str; 12] = ["status", "vcp", "t15", "t3", "t18", "u200", "t31_empty", "t31_basic", "t31_all", "t31_1840", "vcp51", "t31_phi257"];
 
 /// Bytes of one message of symbol `sym` at stream position `pos` (position is stamped into the
 /// header sequence number and the time so that equal kinds are distinguishable).
@@ -44,8 +44,23 @@ pub fn message_bytes(sym: usize, pos: usize) -> Vec<u8> {
             let (h, b) = simple_radial(1 + (pos % 3) as u8, pos as u16 + 1, 19000, pos as u32, &[3], 4, Some(212));
             t31_message(&mh, &h, &b, &Layout::default())
         }
-        _ => {
+        8 => {
             let (h, b) = simple_radial(2, pos as u16 + 1, 19000, pos as u32, &[3, 4, 5, 6, 7, 8, 9], 6, Some(35));
+            t31_message(&mh, &h, &b, &Layout::default())
+        }
+        9 => {
+            // a radial larger than a fixed frame: 1840 gates of REF and VEL
+            let (h, b) = simple_radial(3, pos as u16 + 1, 19000, pos as u32, &[3, 4], 1840, Some(212));
+            t31_message(&mh, &h, &b, &Layout::default())
+        }
+        10 => {
+            mh.typ = 5;
+            let cuts: Vec<VcpCut> = (0..51).map(|i| VcpCut::new(0x0058 + 8 * i, (i % 3) as u8, 1 + (i % 5) as u8, (i % 2) as u8, i)).collect();
+            fixed_frame(&mh, &vcp_body(&vcp_header_hw(215, 51), &cuts))
+        }
+        _ => {
+            // 16-bit PHI with an odd gate count above 256, no VOL block
+            let (h, b) = simple_radial(4, pos as u16 + 1, 19000, pos as u32, &[7, 3], 257, None);
             t31_message(&mh, &h, &b, &Layout::default())
         }
     }
@@ -231,6 +246,11 @@ pub fn run(ctx: &'static Ctx) -> (&'static str, Value, Vec<&'static str>) {
     for len in 0..=maxlen {
         words_all.extend(words(9, len));
     }
+    // the three extra kinds (1840-gate radial, 51-cut VCP, 257-gate 16-bit PHI): every stream over
+    // all 12 kinds up to one message shorter, keeping only those that use an extra kind
+    for len in 1..maxlen {
+        words_all.extend(words(12, len).filter(|w| w.iter().any(|x| *x >= 9)));
+    }
     let s1: Stats = words_all
         .par_iter()
         .fold(Stats::new, |mut st, w| {
@@ -277,12 +297,34 @@ pub fn run(ctx: &'static Ctx) -> (&'static str, Value, Vec<&'static str>) {
         s3.outcome(o);
         s3.nontrivial(format!("L{:?}", &syms[..8]).as_bytes());
     }
+    // runs of consecutive fixed-length frames of every length 1..=150 (a real metadata record holds
+    // 134), followed by a radial and a second run: count/size-dependent framing state shows here
+    let run_lengths: Vec<usize> = if thorough { (1..=150).collect() } else { (1..=40).chain([64, 100, 133, 134, 135, 150]).collect() };
+    let s3b: Stats = run_lengths
+        .par_iter()
+        .fold(Stats::new, |mut st, &l| {
+            for variant in 0..2usize {
+                let mut syms: Vec<usize> = (0..l).map(|i| [0usize, 3, 4, 5, 1, 2, 10][(i * (variant + 1) + variant) % 7]).collect();
+                syms.push(7 + variant);
+                syms.extend((0..l).map(|i| [3usize, 0, 5][(i + variant) % 3]));
+                let parts: Vec<Vec<u8>> = syms.iter().enumerate().map(|(i, s)| message_bytes(*s, i)).collect();
+                let labels: Vec<String> = syms.iter().map(|s| SYMBOLS[*s].to_string()).collect();
+                let o = check_stream(ctx, &parts, &labels, &|| json!({"op": "stream", "symbols": syms}), variant == 0);
+                st.eval();
+                st.outcome(o);
+                st.count("long_fixed_frame_runs", 1);
+                st.nontrivial(format!("run{l}/{variant}").as_bytes());
+            }
+            st
+        })
+        .reduce(Stats::new, Stats::merge);
+    let s3 = s3.merge(s3b);
     // truncations
     let mut s4 = Stats::new();
     let mut bases: Vec<Vec<usize>> = Vec::new();
-    for a in 0..9 {
+    for a in 0..12 {
         bases.push(vec![a]);
-        for b in [0usize, 6, 7, 8] {
+        for b in [0usize, 6, 7, 8, 11] {
             bases.push(vec![a, b]);
         }
     }
@@ -298,13 +340,13 @@ pub fn run(ctx: &'static Ctx) -> (&'static str, Value, Vec<&'static str>) {
     for b in &bases {
         // every cut for streams without a fixed frame; fixed frames: every cut in the first/last 200
         // bytes of each message and every 7th (quick: 61st) in between
-        let has_fixed = b.iter().any(|s| *s < 6);
+        let has_fixed = b.iter().any(|s| *s < 6 || *s == 10 || *s == 9);
         check_truncations(ctx, b, if !has_fixed { 1 } else if thorough { 7 } else { 61 }, &mut s4);
     }
     s4.count("truncation_base_streams", bases.len() as u64);
     let stats = s1.merge(s2).merge(s3).merge(s4);
     let cov = stats.coverage(
-        "all streams over a 9-kind alphabet {status, VCP, type 15, type 3, type 18, unknown 200, type-31 with 0 / 4 / 10 blocks} of length 0..=5 (thorough 0..=6), each message stamped with its position; all 256x16 (thorough 256x256) two-frame type-code pairs; three 300-message streams; truncations of a base set: every cut for type-31-only streams, every cut within 200 bytes of a message boundary plus a stride inside fixed frames. Differential oracle: message i equals the same bytes decoded alone. non-trivial = >=2 messages or a truncation; distinct by content hash",
+        "all streams over a 9-kind alphabet {status, VCP, type 15, type 3, type 18, unknown 200, type-31 with 0 / 4 / 10 blocks} and, one message shorter, over 12 kinds (+ 1840-gate radial larger than a frame, 51-cut VCP, 257-gate 16-bit PHI radial) of length 0..=5 (thorough 0..=6), each message stamped with its position; all 256x16 (thorough 256x256) two-frame type-code pairs; three 300-message streams; runs of 1..=40,64,100,133..135,150 (thorough 1..=150) consecutive fixed frames, a radial, and a second run; truncations of a base set: every cut for type-31-only streams, every cut within 200 bytes of a message boundary plus a stride inside fixed frames. Differential oracle: message i equals the same bytes decoded alone. non-trivial = >=2 messages or a truncation; distinct by content hash",
         true,
         json!({"alphabet": SYMBOLS, "max_length": maxlen}),
     );
